@@ -176,7 +176,16 @@ fn mk_key(k: &KeySpec) -> Key {
     Key::from_parts(k.name.clone(), labels)
 }
 
-pub const UNITS: [(&str, &str); 9] = [
+pub const UNITS: [(&str, &str); 18] = [
+    ("Nanoseconds", "Nanoseconds"),
+    ("Tebibytes", "Tebibytes"),
+    ("Gibibytes", "Gibibytes"),
+    ("Mebibytes", "Mebibytes"),
+    ("Kibibytes", "Kibibytes"),
+    ("TerabitsPerSecond", "Terabits/Second"),
+    ("GigabitsPerSecond", "Gigabits/Second"),
+    ("KilobitsPerSecond", "Kilobits/Second"),
+    ("CountPerSecond", "Count/Second"),
     ("Count", "Count"),
     ("Percent", "Percent"),
     ("Seconds", "Seconds"),
@@ -198,6 +207,15 @@ fn metrics_unit(name: &str) -> Option<metrics::Unit> {
         "Bytes" => metrics::Unit::Bytes,
         "BitsPerSecond" => metrics::Unit::BitsPerSecond,
         "MegabitsPerSecond" => metrics::Unit::MegabitsPerSecond,
+        "Nanoseconds" => metrics::Unit::Nanoseconds,
+        "Tebibytes" => metrics::Unit::Tebibytes,
+        "Gibibytes" => metrics::Unit::Gibibytes,
+        "Mebibytes" => metrics::Unit::Mebibytes,
+        "Kibibytes" => metrics::Unit::Kibibytes,
+        "TerabitsPerSecond" => metrics::Unit::TerabitsPerSecond,
+        "GigabitsPerSecond" => metrics::Unit::GigabitsPerSecond,
+        "KilobitsPerSecond" => metrics::Unit::KilobitsPerSecond,
+        "CountPerSecond" => metrics::Unit::CountPerSecond,
         _ => return None,
     })
 }
